@@ -514,8 +514,13 @@ func vfC07EndToEnd(run *vfkit.Run, cs vfC07E2E) {
 				}
 			}
 		}()
+		nresp := 0
 		for id := range trigger {
-			resp := fmt.Sprintf(`<iq type="result" id="%s" from="server"><query xmlns="jabber:iq:version"><name>n</name></query></iq>`, id)
+			// who the response claims to come from is not part of the matching: a pending request is found by its id
+			// (servers normalise addresses, answer for their users, or leave the attribute out)
+			nresp++
+			from := []string{` from="server"`, ` from="SERVER"`, ` from="server/resource"`, ``, ` from="other.example"`}[nresp%5]
+			resp := fmt.Sprintf(`<iq type="result" id="%s"%s><query xmlns="jabber:iq:version"><name>n</name></query></iq>`, id, from)
 			if cs.Dup {
 				resp += resp
 			}
